@@ -136,6 +136,24 @@ fn non_break_word(input: &[char], lex: &[Vec<char>], eos: usize) -> bool {
     false
 }
 
+/// the property's own reading (no look-back bound): ANY dictionary word that crosses the candidate, or ends on it with
+/// more than one character
+fn word_across_unbounded(input: &[char], lex: &[Vec<char>], eos: usize) -> bool {
+    for j in 0..eos {
+        for w in lex {
+            if input[j..].starts_with(w) {
+                let end = j + w.len();
+                if end > eos || (end == eos && w.len() > 1) {
+                    return true;
+                }
+            }
+        }
+    }
+    false
+}
+
+pub const CLASS_LOOKBACK: &str = "c16_word_beyond_lookback";
+
 fn is_ws(c: char) -> bool {
     c.is_whitespace()
 }
@@ -331,47 +349,55 @@ fn ends_after_terminator(t: &[char]) -> bool {
     h.len() >= 8 && br_tag_at(h, h.len() - 4) && br_tag_at(h, h.len() - 8)
 }
 
-fn property_on_output(text: &str, chars: &[char], lex: Option<&[Vec<char>]>, limit: usize, o: &Outcome) -> Option<String> {
+fn property_on_output(text: &str, chars: &[char], lex: Option<&[Vec<char>]>, limit: usize, o: &Outcome) -> Option<(String, &'static str)> {
+    let mut known: Option<(String, &'static str)> = None;
     let ranges = match &o.ranges {
-        None => return Some(format!("no partition produced: {}", o.note)),
+        None => return Some((format!("no partition produced: {}", o.note), "")),
         Some(r) => r,
     };
     if !o.slices_ok {
-        return Some("a reported slice differs from the text in its range".into());
+        return Some(("a reported slice differs from the text in its range".into(), ""));
     }
     let mut pos = 0;
     for (i, &(b, e)) in ranges.iter().enumerate() {
         if b != pos {
-            return Some(format!("range {} starts at {} but the previous one ended at {}", i, b, pos));
+            return Some((format!("range {} starts at {} but the previous one ended at {}", i, b, pos), ""));
         }
         if e <= b {
-            return Some(format!("range {} is empty", i));
+            return Some((format!("range {} is empty", i), ""));
         }
         if !text.is_char_boundary(b) || e > text.len() || !text.is_char_boundary(e) {
-            return Some(format!("range {} = {}..{} is not on character boundaries", i, b, e));
+            return Some((format!("range {} = {}..{} is not on character boundaries", i, b, e), ""));
         }
         pos = e;
     }
     if pos != text.len() {
-        return Some(format!("ranges end at {} but the text has {} bytes", pos, text.len()));
+        return Some((format!("ranges end at {} but the text has {} bytes", pos, text.len()), ""));
     }
     if ranges.len() > chars.len() {
-        return Some("more sentences than characters".into());
+        return Some(("more sentences than characters".into(), ""));
     }
     for (i, &(b, e)) in ranges.iter().enumerate() {
         let sent: Vec<char> = text[b..e].chars().collect();
         if i + 1 < ranges.len() {
             if !ends_after_terminator(&sent) {
-                return Some(format!("sentence {} ({:?}) is not the last one and does not end after a terminator", i, &text[b..e]));
+                return Some((format!("sentence {} ({:?}) is not the last one and does not end after a terminator", i, &text[b..e]), ""));
             }
             if paren_level(&sent) > 0 {
-                return Some(format!("break after sentence {} ({:?}) lies inside an unclosed bracket", i, &text[b..e]));
+                return Some((format!("break after sentence {} ({:?}) lies inside an unclosed bracket", i, &text[b..e]), ""));
             }
             if let Some(l) = lex {
                 let cstart = text[..b].chars().count();
                 let rest = &chars[cstart..];
                 if non_break_word(rest, l, sent.len()) {
-                    return Some(format!("break after sentence {} ({:?}) lies inside / at the end of a multi-character dictionary word", i, &text[b..e]));
+                    return Some((format!("break after sentence {} ({:?}) lies inside / at the end of a multi-character dictionary word", i, &text[b..e]), ""));
+                }
+                if known.is_none() && word_across_unbounded(rest, l, sent.len()) {
+                    // only words that start before the 30-byte look-back window are left: the recorded finding
+                    known = Some((
+                        format!("break after sentence {} ({:?}) lies inside / at the end of a multi-character dictionary word that starts more than 30 bytes before the break", i, &text[b..e]),
+                        CLASS_LOOKBACK,
+                    ));
                 }
             }
         }
@@ -379,16 +405,13 @@ fn property_on_output(text: &str, chars: &[char], lex: Option<&[Vec<char>]>, lim
         let cstart = text[..b].chars().count();
         let want = oracle_get_eos(&chars[cstart..], limit, lex);
         if want > 0 && (e - b) as i64 != want {
-            return Some(format!(
-                "sentence {} starting at byte {}: an unvetoed terminator ends at +{} bytes but the sentence runs to +{}",
-                i,
-                b,
-                want,
-                e - b
+            return Some((
+                format!("sentence {} starting at byte {}: an unvetoed terminator ends at +{} bytes but the sentence runs to +{}", i, b, want, e - b),
+                "",
             ));
         }
     }
-    None
+    known
 }
 
 // ------------------------------------------------------------------------------------------------
@@ -490,6 +513,17 @@ fn gen_lexicon(rng: &mut Rng, chars: &[char]) -> Vec<String> {
             }
         }
     }
+    // long words ending with / containing a terminator: around the 30-byte look-back of the checker
+    for (i, c) in chars.iter().enumerate() {
+        if (is_period(*c) || is_dot(*c)) && i >= 8 && rng.chance(1, 5) {
+            let a = i.saturating_sub(8 + rng.below(5) as usize);
+            let b = usize::min(n, i + 1 + rng.below(2) as usize);
+            let w: String = chars[a..b].iter().collect();
+            if !w.contains('"') && !w.contains('\\') && !w.contains('\n') {
+                words.push(w);
+            }
+        }
+    }
     if rng.chance(1, 4) {
         words.push("モーニング娘。".into());
     }
@@ -559,9 +593,21 @@ fn one_case(sink: &mut Sink, text: &str, limit: usize, lex: &Option<Vec<String>>
     if chars.iter().any(|&c| is_open(c) || is_close(c)) {
         sink.tag("has_brackets");
     }
-    let id = sink.case(term, desc(text, limit, lex), has_term);
-    if let Some(why) = property_on_output(text, &chars, lexc.as_deref(), limit, &out) {
-        sink.fail(id, &why, "");
+    let verdict = property_on_output(text, &chars, lexc.as_deref(), limit, &out);
+    let mut d = desc(text, limit, lex);
+    if let Some((_, cls)) = &verdict {
+        if !cls.is_empty() {
+            d["known_class"] = json!(cls);
+            sink.tag("known_finding_lookback");
+        }
+    }
+    let id = sink.case(term, d, has_term);
+    if let Some((why, cls)) = verdict {
+        if cls.is_empty() || (out.eos == Some(want_eos) && out.ranges.as_ref() == Some(&want_ranges)) {
+            sink.fail(id, &why, cls);
+        } else {
+            sink.fail(id, &format!("{}; moreover implementation and reference matcher differ", why), "");
+        }
     } else if out.eos != Some(want_eos) {
         sink.fail(id, &format!("get_eos returned {:?} but the reference matcher gives {}", out.eos, want_eos), "");
     } else if out.ranges.as_ref() != Some(&want_ranges) {
@@ -579,6 +625,10 @@ fn corpus() -> Vec<(String, usize, Option<Vec<String>>)> {
     v.push(("モーニング娘。の歌。次".into(), 4096, Some(vec!["モーニング娘。".into(), "。".into()])));
     v.push(("ばな。なです。".into(), 4096, Some(vec!["な。な".into()])));
     v.push(("あ。いう".into(), 4096, Some(vec!["。".into(), "。い".into()])));
+    // recorded finding: a dictionary word that starts more than 30 bytes before the break is not seen by the checker
+    v.push(("あいうえおかきくけこさ。い".into(), 4096, Some(vec!["あいうえおかきくけこさ。".into()])));
+    v.push(("ああいうえおかきくけこ。い".into(), 4096, Some(vec!["あいうえおかきくけこ。".into()]))); // 11 characters = 33 bytes: still seen? (starts 33 bytes back: not seen)
+    v.push(("あいうえおかきくけ。い".into(), 4096, Some(vec!["あいうえおかきくけ。".into()]))); // 10 characters = 30 bytes: seen, no break
     // window limits: negative eos sends the iterator to the end of the text
     v.push(("あいうえおか。き。".into(), 3, None));
     v.push(("あい。うえお。".into(), 5, None));
